@@ -26,7 +26,12 @@ def _one(args):
     import monitors
     import protofollow
     from sysharness import run_scenario
-    res = run_scenario(sc, schedule, seed=seed)
+    try:
+        res = run_scenario(sc, schedule, seed=seed)
+    except Exception:
+        raise
+    except BaseException as e:      # a pool worker that dies of a BaseException makes Pool.map wait for ever
+        raise RuntimeError(f"harness run ended with {type(e).__name__}: {e} (scenario {json.dumps(sc)[:300]})") from None
     for e in res.events:
         if e[0] == "webapi" and e[1] == "exit" and e[3] is not None:
             raise RuntimeError(f"harness client thread died of {e[3]} (infrastructure error)")
